@@ -407,6 +407,7 @@ type sideState struct {
 	cands    []Candidate // local candidates (as created)
 	signal   []string    // marshalled candidates to signal to the peer
 	sigDone  []bool      // trickle: candidate j has been handed to the peer
+	genVals  []uint32    // what the application's nomination value generator has returned so far
 	ufrag    string
 	pwd      string
 	gen      int
@@ -475,10 +476,12 @@ func (pw *pairWorld) newAgent(s *sideState, lite bool) {
 				if v > ctr {
 					ctr = v
 				}
+				s.genVals = append(s.genVals, v)
 
 				return v
 			}
 			ctr++
+			s.genVals = append(s.genVals, ctr)
 
 			return ctr
 		}))
